@@ -76,7 +76,7 @@ def sample_density_matrix(
     meas_shape = _indices_shape(qid_shape, indices)
 
     if repetitions == 0 or len(indices) == 0:
-        return np.zeros(shape=(repetitions, len(indices)), dtype=np.int8)
+        return np.zeros(shape=(repetitions, len(indices)), dtype=np.uint8)
 
     prng = value.parse_random_state(seed)
 
@@ -90,7 +90,7 @@ def sample_density_matrix(
     # Convert to individual qudit measurements.
     return np.array(
         [value.big_endian_int_to_digits(result[i], base=meas_shape) for i in range(len(result))],
-        dtype=np.int8,
+        dtype=np.uint8,
     )
 
 
